@@ -14,6 +14,7 @@ RULE = ("each case builds a structure from real pieces (repository proteins, cut
         "a hetero group or non-default numbering, and >= 3 expected sites; distinct = distinct (input "
         "digest, options)."
         " 12 % of the built cases run with a parameter file that keeps penalised groups (every site listed); 30 % carry neutral extra options (-q, --log-level, -g/-w, -r, --protonate-all, -k, -d).")
+RULE = RULE + ' Round 8: for inputs with several models the report of every conformation is written through propka.output.write_pka(conformation=...) and its two tables are held against the census of that model.'
 ASSUMPTIONS = ["inputs with alternate-location tags, exact 2.5 A S-S ties or two separate residues sharing one "
                "identity are not judged by the census (counted in census_not_judged)",
                "ligand group typing has no independent oracle: only charge / model pKa per reported type are "
